@@ -429,6 +429,9 @@ def cp2k_cases(draw):
             ups[tgt] = {"data": [f"{draw(st.sampled_from(DKEY))} {draw(st.sampled_from(['7', 'q']))}" for _ in range(draw(st.integers(0, 2)))], "replace": True}
         else:
             ups[tgt] = {"data": {draw(st.sampled_from(DKEY)): draw(st.sampled_from(["9", "0.25", "NVE"])) for _ in range(draw(st.integers(1, 2)))}}
+        if draw(st.integers(0, 4)) == 0:
+            # a section parameter (what follows the section name on its header line), e.g. &PRINT ON
+            ups[tgt]["settings"] = [draw(st.sampled_from(["ON", "SILENT", "T"]))]
     rem = [draw(st.sampled_from(uniq + ["NOPE", "MOTION->NOPE"])) for _ in range(draw(st.integers(0, 2)))] if draw(st.booleans()) else []
     rem = [r for r in rem if not any(t == r or t.startswith(r + "->") or r.startswith(t + "->") for t in ups)]
     return {"roots": roots, "update": ups, "remove": rem}
@@ -495,10 +498,13 @@ def apply_model(roots, update, remove):
     for tgt, val in update.items():
         node, _ = find(tgt)
         data = val.get("data", {})
+        sett = list(val.get("settings", []))
         if node is None:
             node, _ = find(tgt, create=True)
             node["data"] = list(data) if isinstance(data, list) else [f"{k} {v}" for k, v in data.items()]
+            node["params"] = sett
             continue
+        node["params"] = sett if val.get("replace") else list(node["params"]) + sett
         if val.get("replace"):
             node["data"] = list(data)
         else:
@@ -541,7 +547,10 @@ def body_cp2k(rec, c):
         want = sorted(canon(n) for n in apply_model(parse_tree(open(src).read()), c["update"], c["remove"]))
         rec.check(got == want, "cp2k:tree-differs-from-requested-edit", f"got {got}\n want {want}\n case={c}")
         got2 = sorted(canon(n) for n in parse_tree(open(o2).read()))
-        rec.check(got2 == got, "cp2k:not-idempotent", f"{got2} vs {got} case={c}")
+        if any(v.get("settings") and not v.get("replace") for v in c["update"].values()):
+            rec.cls("cp2k:section-parameter-appended(idempotence-not-claimed)")  # appending a parameter twice gives it twice, by the editor's definition
+        else:
+            rec.check(got2 == got, "cp2k:not-idempotent", f"{got2} vs {got} case={c}")
     finally:
         isolate.rmscratch(d)
 
